@@ -50,6 +50,13 @@ def run(ctx, chk):
                         want = (8 * nb - head) // 6
                         got = nchars if isinstance(nchars, int) else (want if nchars == ("fdiv", ("lin", ((("len", "P"), 8),), -head), 6) else None)
                         chk.ob(got == want, "C13/range/%s/%s/%s/%s" % (struct, p, nb, got), "%s.%s [%s] at %d bytes decodes %s characters; its bit range holds %d" % (struct, p, cfg, nb, got if got is not None else nchars, want))
+                if struct == "StaticAndVoyageRelatedData" and p == "destination" and isinstance(nchars, int) and o.nset().is_single():
+                    # the one fixed-width text the crate decodes from truncated messages: "the decoding of
+                    # its bit range" is every whole character of the 20-character field that the payload holds
+                    nb = o.nset().min()
+                    want = max(0, min(20, (8 * nb - off) // 6))
+                    chk.ob(nchars == want, "C13/range/%s/%s/%s/%s" % (struct, p, nb, nchars),
+                           "%s.%s [%s] at %d bytes decodes %d characters; its bit range holds %d whole characters" % (struct, p, cfg, nb, nchars, want))
                 chk.ob(trims == WANT_TRIMS, "C13/trims/%s/%s/%s" % (struct, p, trims),
                        "%s.%s [%s]: padding is stripped as %r, expected leading spaces, then trailing '@', then trailing spaces" % (struct, p, cfg, trims),
                        sample={"field": struct + "." + p, "chars": str(nchars), "from_bit": start, "trims": [str(t) for t in trims]})
